@@ -129,12 +129,22 @@ XOPTS = {
     "check": [("CHECK", "K"), ("(", "P"), ("a1", "I"), (">", "O"), ("0", "N"), (")", "P")],
     "default_ts": [("DEFAULT", "K"), ("CURRENT_TIMESTAMP", "V")],
     "unique": [("UNIQUE", "K")],
+    "with_time_zone": [("WITH", "K"), ("TIME", "K"), ("ZONE", "K")],
+    "without_time_zone": [("WITHOUT", "K"), ("TIME", "K"), ("ZONE", "K")],
+    "ref_deferrable": [("REFERENCES", "K"), ("rt1", "I"), ("(", "P"), ("rc1", "I"), (")", "P"), ("DEFERRABLE", "K"), ("INITIALLY", "K"), ("DEFERRED", "V")],
+    "ref_not_deferrable": [("REFERENCES", "K"), ("rt1", "I"), ("(", "P"), ("rc1", "I"), (")", "P"), ("NOT", "K"), ("DEFERRABLE", "K")],
+    "default_fn": [("DEFAULT", "K"), ("now()", "V")],
+    "default_dotfn": [("DEFAULT", "K"), ("s1.f1()", "V")],
+    "default_fn_arg": [("DEFAULT", "K"), ("lower", "V"), ("(", "P"), ("'X'", "L"), (")", "P")],
+    "check_in": [("CHECK", "K"), ("(", "P"), ("a1", "I"), ("IN", "K"), ("(", "P"), ("1", "N"), (",", "P"), ("2", "N"), (")", "P"), (")", "P")],
 }
+XPRE = [[], [], [], ["OR", "REPLACE"], ["TEMPORARY"], ["TEMP"], ["EXTERNAL"], ["OR", "REPLACE", "TRANSIENT"], ["GLOBAL", "TEMPORARY"]]
 XOPT_NAMES = sorted(XOPTS)
 # options that cannot follow / precede each other in one column (mutually exclusive families)
 XOPT_FAMILY = {"auto_increment": "ai", "autoincrement": "ai", "collate": "co", "collate_q": "co", "generated_stored": "ge", "generated": "ge",
                "generated_identity": "ge", "generated_by_default": "ge", "identity": "ge", "next_value_for": "de", "default_paren": "de",
-               "default_ts": "de", "not_null": "nu", "null": "nu", "constraint_nn": "nu"}
+               "default_ts": "de", "not_null": "nu", "null": "nu", "constraint_nn": "nu", "default_fn": "de", "default_dotfn": "de", "default_fn_arg": "de",
+               "with_time_zone": "ty", "without_time_zone": "ty", "unsigned": "ty", "ref_deferrable": "re", "ref_not_deferrable": "re", "check_in": "check"}
 
 
 @st.composite
@@ -152,13 +162,20 @@ def xtable(draw):
                 continue
             fams.add(f)
             chosen.append(o)
+        if any(o.endswith("time_zone") for o in chosen):  # WITH[OUT] TIME ZONE completes the type: no IDENTITY / CHARACTER SET after it
+            chosen = [o for o in chosen if o not in ("identity", "character_set")]
         # UNSIGNED, IDENTITY (n, m) and CHARACTER SET x belong to the type: the grammar accepts them only directly after it
-        chosen.sort(key=lambda o: {"unsigned": 0, "identity": 1, "character_set": 2}.get(o, 3))
+        chosen.sort(key=lambda o: {"unsigned": 0, "with_time_zone": 0, "without_time_zone": 0, "identity": 1, "character_set": 2}.get(o, 3))
         cols.append({"name": nm, "type": t, "size": size, "x": chosen})
     alters = []
     for j in range(draw(st.integers(0, 2))):
         alters.append({"name": "xa%d" % j, "type": draw(st.sampled_from(["text", "varchar", "int"])), "x": draw(st.sampled_from([[], ["collate"], ["comment"], ["default_ts"], ["collate_q"]]))})
-    return {"schema": draw(st.one_of(st.none(), gen.plain_ident())), "name": draw(gen.plain_ident(min_len=2)), "cols": cols, "alters": alters}
+    items = []
+    if draw(st.integers(0, 3)) == 0:
+        k = draw(st.integers(1, min(2, len(names))))
+        items.append({"kind": draw(st.sampled_from(["index", "unique_key"])), "name": "ixk1", "cols": list(draw(st.permutations(names)))[:k]})
+    return {"schema": draw(st.one_of(st.none(), gen.plain_ident())), "name": draw(gen.plain_ident(min_len=2)), "cols": cols, "alters": alters,
+            "pre": draw(st.sampled_from(XPRE)), "ine": draw(st.integers(0, 3)) == 0, "items": items}
 
 
 def xtable_statements(c, index):
@@ -170,7 +187,13 @@ def xtable_statements(c, index):
         for o in col["x"]:
             toks += [tuple(t) for t in XOPTS[o]]
         items.append(toks)
-    out = [K("CREATE", "TABLE") + [I(full)] + plist(items) + [END]]
+    for it in c.get("items", []):
+        items.append((K("INDEX") if it["kind"] == "index" else K("UNIQUE", "KEY")) + [I(it["name"])] + plist([[I(x)] for x in it["cols"]]))
+    pre = c.get("pre", [])
+    # the grammar has no IF NOT EXISTS form after a two-word prefix (GLOBAL TEMPORARY)
+    ine = c.get("ine") and pre != ["GLOBAL", "TEMPORARY"]
+    head = K("CREATE") + K(*pre) + K("TABLE") + (K("IF", "NOT", "EXISTS") if ine else [])
+    out = [head + [I(full)] + plist(items) + [END]]
     for a in c["alters"]:
         toks = K("ALTER", "TABLE") + [I(full)] + K("ADD") + [I(a["name"]), T(a["type"])]
         for o in a["x"]:
@@ -259,7 +282,7 @@ def statements(b, index=0, set_tokens=False):
     raise ValueError(k)
 
 
-DECL_BUCKET = {"enum": "types", "object": "types", "table": "types", "kv": "types", "domain": "domains", "schema": "schemas",
+DECL_BUCKET = {"enum": "types", "object": "types", "table": "types", "kv": "types", "domain": "domains", "domain_enum": "domains", "schema": "schemas",
                "database": "databases", "tablespace": "tablespaces"}
 
 
@@ -274,7 +297,12 @@ def entity_kinds(b):
     if k == "seq":
         return ["sequences"] * len(c["seqs"])
     if k == "decl":
-        return [DECL_BUCKET[c["kind"]]] + (["tables"] if c.get("use") else [])
+        out = []
+        for d, main in _props()[5].PROP.sequence(c):
+            out.append(DECL_BUCKET[d["kind"]])
+            if main and d.get("use"):
+                out.append("tables")
+        return out
     if k == "set":
         return ["ddl_properties"]
     raise ValueError(k)
